@@ -93,6 +93,34 @@ PROPERTIES.update({
             "level_note": "Equality for all hasher seeds is sampled over the seeds the runs happened to draw."},
 })
 
+PROPERTIES.update({
+    "C05": {"category": "exploration",
+            "anchor_files": ["src/udiff.rs", "src/common.rs", "src/text/mod.rs", "src/types.rs"],
+            "technique": "strict unified-diff parser/applier (R-PATCH) over the bytes written by to_writer, differential checks writer vs Display vs a short-writing sink vs udiff::unified_diff, exhaustive small line texts + generated hostile texts; failures attributed to known finding KF1 only via the H3 swap-repair switch",
+            "level_text": "Every rendering (radius 0..5, > usize::MAX/2 and MAX; header on/off; hint on/off; str and [u8]) is parsed from bytes and applied strictly: header counts == body counts, stated starts == true positions, ordered non-overlapping hunks, every context/'-' line byte-equal to the old text, marker exactly on unterminated lines, >= 1 change and <= radius edge context per hunk, deletions before insertions, result == new text; equal inputs render as nothing. Complete for all pairs of texts of up to 3 (thorough 4) lines over {a LF, b LF, a CRLF, a CR} with optional missing final newline; sampled over generated texts incl. invalid UTF-8. Header failures caused by the listed known finding are matched only if a swap was observed and the identical rendering with the repair switch passes and differs in '@@' lines only.",
+            "level_note": "Trusts the 250-line parser/applier and hook H3. With the hint disabled only applicability modulo the final newline is checked."},
+    "C14": {"category": "exploration",
+            "anchor_files": ["src/text/mod.rs", "src/algorithms/utils.rs", "src/common.rs"],
+            "technique": "differential check: ops of TextDiff for 6 tokenizer entry points vs capture_diff_slices over independently obtained tokens, at token counts on both sides of the >100 switch; algorithm()/newline_terminated() under all overrides; IdentifyDistinct ids vs item equality (all pairs, within and across sides) and diff-through-lookups vs direct diff at non-zero offsets for 5 integer types",
+            "level_text": "Texts of 0,1,50,99,100,101,102,150,400 tokens (vocabulary 3/20/1000, new-only repeated items included) through lines/words/chars/unicode words/graphemes/diff_slices x 3 algorithms x str/[u8] x override none/true/false; IdentifyDistinct checked pairwise on 20k (400k) random inputs with non-zero sub-range offsets.",
+            "level_note": "Tokens are taken from the public tokenizers (validated separately by C06)."},
+    "C16": {"category": "fault_enumeration",
+            "anchor_files": ["src/text/inline.rs", "src/text/utils.rs", "src/text/mod.rs"],
+            "technique": "offline checker over InlineChange streams (tags/indices vs plain expansion, segments rebuild the line, emphasis only in Replace-derived Delete/Insert and never over CR/LF, missing_newline flag), with the second-level diff's deadline absent, default, really expired and virtually expiring at check 0..3; second build without the `unicode` feature in the thorough tier",
+            "level_text": "Line pairs biased to word-level edits (so the ratio gates are passed and emphasis is produced: ~150k emphasised segments per quick run), mixed terminators, lines split in two, invalid UTF-8 in the [u8] variant; every op of every diff is expanded under 4 deadline regimes.",
+            "level_note": "The default 500 ms deadline of iter_inline_changes is real time: whether it expires is load dependent, the asserted properties are not."},
+    "C17": {"category": "exploration",
+            "anchor_files": ["src/utils.rs", "src/text/abstraction.rs", "src/types.rs"],
+            "technique": "offline checker over TextDiffRemapper output (tags vs slice-wise expansion, slice == concatenation of tokens, pointer-range check that the slice is the substring of the original at the cumulative offset, reconstruction of both texts) and over the one-call helpers utils::diff_*, incl. empty texts and invalid UTF-8",
+            "level_text": "6k (120k) generated text pairs x 5 tokenizers x 3 algorithms x str/[u8], both remapper constructors, slice_old/slice_new; helpers diff_lines/words/chars/unicode_words/graphemes/slices must reconstruct, never return an empty slice, never panic (('', '') included in 1/23 of the cases).",
+            "level_note": "Sampling only."},
+    "C18": {"category": "exploration",
+            "anchor_files": ["src/text/mod.rs", "src/text/utils.rs", "src/common.rs"],
+            "technique": "differential check of get_close_matches against brute-force ranking (LCS dynamic program on chars, same f32 ratio expression) over generated word/candidate sets with duplicates, empty strings, multi-byte chars, cutoffs hit exactly (and their f32 neighbours), every n, ties at the truncation boundary in every rotation",
+            "level_text": "2.1 M calls per quick run; cutoffs include every ratio that some candidate attains exactly, plus one ulp above/below, so that pre-filter rounding and >= vs > slips are visible; a dedicated family builds candidate groups with equal ratio to test the lexicographic tie-break at the cut.",
+            "level_note": "Cases where two distinct ratios are closer than the u32 quantisation of the heap key would be skipped and counted (none are generated at these lengths)."},
+})
+
 DEFAULT_ASSUMPTIONS = [
     "verdict covers only the executions that were generated (bounded-exhaustive parts are complete within the stated bound; everything else is seeded sampling)",
     "the reference model / oracle written for this property is correct (cross-checked by seeded mutants, see DESIGN.md)",
